@@ -7,7 +7,7 @@ from sa.astx import dotted, src
 from sa.effects import module_accesses
 from sa.selftest import Mutant, Silent
 from sa.source import AnalysisError
-from sa.props._lib_a import (DEFER, Q, RunShape, ChainWalk, group, root_callers, inlined_func, _zero_fact, deferred_fact, attr_of, avoiding_path, call_nodes, calls_of, catching_handlers, const_int,
+from sa.props._lib_a import (DEFER, Q, RunShape, ChainWalk, bool_locals as bool_flag_locals, group, root_callers, inlined_func, _zero_fact, deferred_fact, attr_of, avoiding_path, call_nodes, calls_of, catching_handlers, const_int,
                              exc_escape, facts, handler_catches_all, handler_names, ident_fact, is_const, is_name, known_bool,
                              known_zero, method_call, name_assign_nodes, no_exc, params, stmt_nodes, targets_values)
 
@@ -29,6 +29,7 @@ RULE_KINDS = {
     # every rule is decided on the (helper-inlined) code itself: CFG dominance / must-pass with exception edges, who-may-mutate closed over
     # the callers of private helpers, def-use of the call-out arguments, and the symbolic chain-stack walk (a typestate over all paths of one
     # round of the outer loop - no repository code is evaluated on sample inputs)
+    "steal/decision-table": "finite-exhaustive",   # truth table over (has result, result is Deferred, paused); completeness: steal/decision-domain
     "*": "structural",
 }
 ASSUMPTIONS = [
@@ -501,6 +502,10 @@ def check(ctx):
                   "_continuation() is not ((_CONTINUE, (self,), ..), (_CONTINUE, (self,), ..)): successes or failures of the inner "
                   "Deferred would not be handed to this Deferred")
 
+    with group(ctx, "steal-decision"):
+        _need_shape(S)
+        _check_steal_decision(ctx, S, cur_res)
+
     with group(ctx, "steal"):
         _need_shape(S)
         # ---- steal --------------------------------------------------------------------------------
@@ -515,6 +520,12 @@ def check(ctx):
             no_res = any(ident_fact(e, pol, lambda x: is_name(x, V), lambda x: (dotted(x) or "").endswith("_NO_RESULT")) is False for e, pol in fs)
             not_def = any(deferred_fact(e, pol, lambda x: is_name(x, V)) is False for e, pol in fs)
             unpaused = known_zero(g, s, lambda e: isinstance(e, ast.Attribute) and e.attr == "paused" and S.is_inner(e.value)) is True
+            # a guard that is a bare local (a flag computed elsewhere) hides what is established: abstain rather than guess
+            opaque = [src(e) for e, pol in fs if isinstance(e, ast.Name) and e.id not in (S.cb, S.a, S.kw)
+                      and len(name_assign_nodes(g, e.id)) > 1 and e.id not in bool_flag_locals(g)]
+            if opaque and not (no_res and not_def and unpaused):
+                raise AnalysisError(f"Deferred._runCallbacks: the result is taken under the local flag(s) {opaque}, whose meaning is not read; "
+                                    "the take-or-wait clauses are not decided for this shape")
             ctx.check(no_res, "steal/only-if-fired", cons, "the result is taken from a returned Deferred that has not fired (the _NO_RESULT marker becomes the result)")
             ctx.check(not_def, "steal/not-a-deferred", cons, "the stolen result may itself be a Deferred (the inner one is still waiting): it would be passed on as a value")
             ctx.check(unpaused, "steal/not-paused", cons, "the result is taken from a returned Deferred that is paused (its own callbacks have not finished)")
@@ -526,6 +537,87 @@ def check(ctx):
             wit = after if (before is not None and after is not None) else None
             ctx.check(bool(donor_clear) and wit is None, "steal/donor-cleared", cons,
                       "the returned Deferred keeps the result that was taken from it (it must end holding None)", witness=g.describe(wit))
+
+
+def _check_steal_decision(ctx, S, cur_res):
+    """Take-or-wait for a Deferred returned by a callback is a truth table over exactly three facts about that Deferred:
+    it has a result, that result is itself a Deferred, it is paused.  (a) structural: every *decisive* test (one whose two outcomes
+    can lead to different decisions) reads only one of those facts; (b) finite-exhaustive: for every valuation the decision is
+    `take` iff (has result, result not a Deferred, not paused)."""
+    g, q = S.g, S.q
+    is_V = lambda e: isinstance(e, ast.Name) and e.id in S.stolen
+    is_inner_paused = lambda e: isinstance(e, ast.Attribute) and e.attr == "paused" and S.is_inner(e.value)
+
+    def classify(e, pol):
+        """(fact, value) established by taking edge `pol` of atomic test e, or None when e is outside the vocabulary"""
+        v = ident_fact(e, pol, is_V, lambda x: (dotted(x) or "").endswith("_NO_RESULT"))
+        if v is not None:
+            return ("has", not v)
+        v = deferred_fact(e, pol, is_V)
+        if v is not None:
+            return ("rd", v)
+        v = _zero_fact(e, pol, is_inner_paused)
+        if v is not None:
+            return ("paused", not v)
+        return None
+    starts = [d for t in g.nodes if t.kind == "test" and g.reachable(t.id) for d, l in g.succ[t.id]
+              if l in ("T", "F") and deferred_fact(t.ast, l == "T", cur_res) is True]
+    steals, regs = set(S.steals), set(S.regs)
+    if not starts or not steals or not regs:
+        return      # reported by steal/recognised, chain/registration, returned-deferred/recognised
+    stop = steals | regs | set(S.pops) | set(S.binds) | {g.exit}
+    region = g.reach(starts, avoid=stop, edge_ok=no_exc)
+    decisive = []
+    for t in sorted(region):
+        n = g.node(t)
+        if n.kind != "test":
+            continue
+        ends = []
+        for d, l in g.succ[t]:
+            if l in ("T", "F"):
+                first_steal = avoiding_path(g, [d], steals, regs | set(S.pops) | set(S.binds), strict=False) is not None
+                first_reg = avoiding_path(g, [d], regs, steals | set(S.pops) | set(S.binds), strict=False) is not None
+                ends.append((first_steal, first_reg))
+        if len(ends) == 2 and ends[0] != ends[1]:
+            decisive.append(t)
+    opaque = [t for t in decisive if isinstance(g.node(t).ast, ast.Name) and not S.is_inner(g.node(t).ast) and g.node(t).ast.id not in S.stolen]
+    if opaque:
+        raise AnalysisError("Deferred._runCallbacks: take-or-wait is decided through the local flag(s) "
+                            + ", ".join(src(g.node(t).ast) for t in opaque) + ", whose definitions are not read; decision clauses not decided for this shape")
+    outside = [t for t in decisive if classify(g.node(t).ast, True) is None]
+    vocab = "; ".join(src(g.node(t).ast) for t in decisive)
+    for t in outside:
+        ctx.check(False, "steal/decision-domain", ctx.construct(q, "test " + src(g.node(t).ast)),
+                  "whether the result of a returned Deferred is taken at once or waited for depends on something other than (it has a result, "
+                  "that result is not a Deferred, it is not paused): the documented chaining rule knows no further condition, so callbacks run in "
+                  "a different order / with different inputs when this condition differs")
+    ctx.check(bool(decisive), "steal/decision-domain", q + " | <take-or-wait decision>",
+              "no test decides between taking the returned Deferred's result and waiting for it",
+              detail=f"decisive tests (outcomes lead to different decisions): {vocab}; each reads only has-result / result-is-Deferred / paused"
+              if not outside else "")
+    if outside:
+        return
+    domain = ("finite-exhaustive: all valuations of (has result, result is a Deferred, paused) with `result is a Deferred` only when there is a "
+              f"result; complete because the decisive tests read nothing else (steal/decision-domain: {vocab})")
+    for has, rd, paused in ((0, 0, 0), (0, 0, 1), (1, 0, 0), (1, 0, 1), (1, 1, 0), (1, 1, 1)):
+        env = {"has": bool(has), "rd": bool(rd), "paused": bool(paused)}
+
+        def ok_edge(a, b, l):
+            if l == "exc":
+                return False
+            if a in decisive and l in ("T", "F"):
+                fact, val = classify(g.node(a).ast, l == "T")
+                return env[fact] == val
+            return True
+        takes = g.path(starts, steals, avoid=regs | set(S.pops) | set(S.binds), edge_ok=ok_edge, strict=False)
+        waits = g.path(starts, regs, avoid=steals | set(S.pops) | set(S.binds), edge_ok=ok_edge, strict=False)
+        want_take = env["has"] and not env["rd"] and not env["paused"]
+        lab = f"has result={'T' if has else 'F'} result is Deferred={'T' if rd else 'F'} paused={'T' if paused else 'F'}"
+        good = (takes is not None and waits is None) if want_take else (waits is not None and takes is None)
+        wit = (waits if want_take else takes) or []
+        ctx.check(good, "steal/decision-table", f"{q} | {lab}",
+                  f"for a returned Deferred with {lab} the chain must {'take its result at once' if want_take else 'wait for it'}, but the code can "
+                  f"{'wait' if want_take else 'take the result'}" + ("" if (takes or waits) else " do neither"), detail=domain, witness=g.describe(wit))
 
 
 def _need_shape(S):
@@ -640,6 +732,12 @@ MUTANTS = [
            expect_rule="continue/stack-not-popped-early"),
     Mutant("exhausted-deferred-never-popped", D, "                # This Deferred is done, pop it from the chain and move back up\n                # to the Deferred which supplied us with our result.\n                chain.pop()\n",
            "                if isinstance(current.result, Failure):\n                    chain.pop()\n", expect_rule="chain/popped"),
+    Mutant("take-or-wait-also-looks-at-pending-callbacks", D, "                            or type(resultResult) in _DEFERRED_SUBCLASSES\n                            or currentResult.paused\n",
+           "                            or type(resultResult) in _DEFERRED_SUBCLASSES\n                            or currentResult.paused\n                            or len(currentResult.callbacks) > 0\n",
+           expect_rule="steal/decision-domain"),
+    Mutant("take-or-wait-skips-failures", D, "                            resultResult is _NO_RESULT\n                            or type(resultResult) in _DEFERRED_SUBCLASSES\n",
+           "                            resultResult is _NO_RESULT\n                            or isinstance(resultResult, Failure)\n                            or type(resultResult) in _DEFERRED_SUBCLASSES\n",
+           expect_rule="steal/decision-domain"),
 ]
 SILENT = [
     Silent("rename-locals", D, "item = current.callbacks.pop(0)\n                if not isinstance(current.result, Failure):\n                    callback, args, kwargs = item[0]",
@@ -697,4 +795,8 @@ SILENT = [
     Silent("addCallbacks-defaults-by-conditional-expression", D,
            "        self.callbacks.append(\n            (\n                (callback, callbackArgs, callbackKeywords),\n                (errback, errbackArgs, errbackKeywords),\n            )\n        )\n",
            "        good = (callback, () if callbackArgs is None else callbackArgs, {} if callbackKeywords is None else callbackKeywords)\n        bad = (errback, () if errbackArgs is None else errbackArgs, {} if errbackKeywords is None else errbackKeywords)\n        self.callbacks.append((good, bad))\n"),
+    Silent("take-or-wait-by-named-conditions", D,
+           "                        if (\n                            resultResult is _NO_RESULT\n                            or type(resultResult) in _DEFERRED_SUBCLASSES\n                            or currentResult.paused\n                        ):\n",
+           "                        if resultResult is _NO_RESULT:\n                            mustWait = True\n                        elif isinstance(resultResult, Deferred):\n                            mustWait = True\n                        else:\n                            mustWait = currentResult.paused > 0\n                        if mustWait:\n",
+           allow_error=True),
 ]
